@@ -35,3 +35,27 @@ Theorem C04_recovered_consistent : forall cfg h, oracle_ok h ->
 Proof.
   intros cfg h Hor. exists (used_after [] h). split; [apply reachable_inv; exact Hor|apply final_related_sqlite; exact Hor].
 Qed.
+
+(* the start-up path: `SqliteStorage::new` is six steps, each its own commit.  From ANY state of the data
+   directory — nothing there, a directory left by a start that died after any number of its steps (an
+   empty database file, a database with one of the two tables, without the index, not yet in WAL mode),
+   or one that died twice at different points — the next start completes the set-up; a completed set-up is
+   left as it is by every later start; and no step ever removes what an earlier one created. *)
+From TSS Require Import Setup.
+Theorem C04_start_completes_any_interrupted_start : forall d, ready (storage_new d) = true.
+Proof. intros [a b c e f g]. reflexivity. Qed.
+Theorem C04_interrupted_starts_compose : forall d k1 k2,
+  ready (storage_new (dead_start (dead_start d k1) k2)) = true /\
+  storage_new (storage_new d) = storage_new d.
+Proof. intros [a b c e f g] k1 k2. split; reflexivity. Qed.
+Theorem C04_start_never_removes : forall d k,
+  let d' := dead_start d k in
+  (d_dir d = true -> d_dir d' = true) /\ (d_file d = true -> d_file d' = true) /\ (d_wal d = true -> d_wal d' = true) /\
+  (d_clients d = true -> d_clients d' = true) /\ (d_versions d = true -> d_versions d' = true) /\ (d_index d = true -> d_index d' = true).
+Proof.
+  intros [a b c e f g] k. do 7 (destruct k as [|k]; [cbn; tauto|]). cbn. tauto.
+Qed.
+Example C04_dead_start_nonvacuous :
+  ready (dead_start d_none 2) = false /\ d_file (dead_start d_none 2) = true /\ d_clients (dead_start d_none 4) = true /\
+  d_versions (dead_start d_none 4) = false /\ ready (dead_start d_none 6) = true.
+Proof. repeat split. Qed.
